@@ -222,6 +222,12 @@ impl RtpHeader {
                 break;
             }
 
+            if offset + len > ext.data.len() {
+                // Truncated trailing element (e.g. received from the wire):
+                // treat it as the end of the list, as `get_extension` does.
+                break;
+            }
+
             if ext_id == id {
                 found = true;
                 new_data.push(id_header);
